@@ -16,6 +16,9 @@
 //	                                           update, the operand order of Merge, the padding test, the swap for RIGHT,
 //	                                           the whole bodies as token lists
 //	            CalcMinimumRequired          → Gen.calcMinimumRequired : Int → Int → Int → Int
+//	reference_scope.go createScope / CreateChild / CreateNode → Gen.<f>Origins : ScopeCtor (for every field of
+//	                                           ReferenceScope: inherited from the receiver / fresh / zero), bodies as tokens
+//	query.go    selectSet, selectSetForRecursion; inline_tables.go InlineTableMap.Set → token lists
 //
 // Token lists: compound statements are kept as structure (`if(<cond>){`, `}else{`, `for(<header>){`, `switch(<tag>){`,
 // `case(<list>):`, `}`), simple statements as their source text without white space - calls stay visible, nothing
@@ -1164,9 +1167,116 @@ func intBody(stmts []ast.Stmt, ind string) string {
 	return ""
 }
 
+// ---------- reference_scope.go: what a derived scope inherits; query.go / inline_tables.go: the recursion ----------
+
+var scopeFields = []struct{ goName, leanName string }{
+	{"Tx", "tx"}, {"Blocks", "blocks"}, {"nodes", "nodes"}, {"cachedFilePath", "cachedFilePath"}, {"now", "now"},
+	{"Records", "records"}, {"RecursiveTable", "recursiveTable"}, {"RecursiveTmpView", "recursiveTmpView"},
+	{"RecursiveCount", "recursiveCount"},
+}
+
+func genScope(out *strings.Builder) {
+	f := parseFile("lib/query/reference_scope.go")
+	// the struct: every field must be one the model knows about
+	known := map[string]bool{}
+	for _, sf := range scopeFields {
+		known[sf.goName] = true
+	}
+	found := false
+	ast.Inspect(f, func(n ast.Node) bool {
+		ts, ok := n.(*ast.TypeSpec)
+		if !ok || ts.Name.Name != "ReferenceScope" {
+			return true
+		}
+		st, ok := ts.Type.(*ast.StructType)
+		if !ok {
+			die("%s: ReferenceScope is not a struct", pos(ts))
+		}
+		found = true
+		n0 := 0
+		for _, fl := range st.Fields.List {
+			for _, nm := range fl.Names {
+				n0++
+				if !known[nm.Name] {
+					die("%s: ReferenceScope has a field %s the model of the scope constructors does not know", pos(nm), nm.Name)
+				}
+			}
+		}
+		if n0 != len(scopeFields) {
+			die("%s: ReferenceScope has %d fields, the model knows %d", pos(ts), n0, len(scopeFields))
+		}
+		return false
+	})
+	if !found {
+		die("type ReferenceScope not found")
+	}
+	for _, fn := range []string{"createScope", "CreateChild", "CreateNode"} {
+		fd := findFunc(f, "ReferenceScope", fn)
+		if len(fd.Recv.List[0].Names) != 1 {
+			die("%s: %s: receiver without a name", pos(fd), fn)
+		}
+		recv := fd.Recv.List[0].Names[0].Name
+		var lit *ast.CompositeLit
+		nlit := 0
+		ast.Inspect(fd.Body, func(n ast.Node) bool {
+			if cl, ok := n.(*ast.CompositeLit); ok {
+				if id, ok := cl.Type.(*ast.Ident); ok && id.Name == "ReferenceScope" {
+					lit = cl
+					nlit++
+				}
+			}
+			return true
+		})
+		if nlit != 1 {
+			die("%s: %s: expected exactly one ReferenceScope literal, found %d", pos(fd), fn, nlit)
+		}
+		origin := map[string]string{}
+		for _, el := range lit.Elts {
+			kv, ok := el.(*ast.KeyValueExpr)
+			if !ok {
+				die("%s: %s: positional element in the ReferenceScope literal", pos(el), fn)
+			}
+			key := canon(kv.Key)
+			if !known[key] {
+				die("%s: %s: unknown field %s", pos(kv), fn, key)
+			}
+			if _, dup := origin[key]; dup {
+				die("%s: %s: field %s twice", pos(kv), fn, key)
+			}
+			switch v := canon(kv.Value); v {
+			case recv + "." + key:
+				origin[key] = "inherited"
+			case "nil":
+				origin[key] = "zero"
+			default:
+				origin[key] = "fresh"
+			}
+		}
+		fmt.Fprintf(out, "/-- `%s`: where every field of the scope it returns comes from (the literal at %s) -/\n", fn, filepath.Base(fset.Position(lit.Pos()).Filename))
+		fmt.Fprintf(out, "def %sOrigins : ScopeCtor :=\n  { ", lower(fn))
+		for i, sf := range scopeFields {
+			o, ok := origin[sf.goName]
+			if !ok {
+				o = "zero"
+			}
+			if i > 0 {
+				out.WriteString(",\n    ")
+			}
+			fmt.Fprintf(out, "%s := .%s", sf.leanName, o)
+		}
+		out.WriteString(" }\n\n")
+		out.WriteString(leanList(lower(fn)+"Body", "`ReferenceScope."+fn+"` as a whole", stmtTokens(fd.Body.List)))
+	}
+	q := parseFile("lib/query/query.go")
+	out.WriteString(leanList("selectSetBody", "`selectSet`: a set operation inside the definition of a recursive table is run as the recursion", stmtTokens(findFunc(q, "", "selectSet").Body.List)))
+	out.WriteString(leanList("selectSetForRecursionBody", "`selectSetForRecursion`: the limit count, the working view (first the anchor's records, then the records of the step before), the step, the merge", stmtTokens(findFunc(q, "", "selectSetForRecursion").Body.List)))
+	it := parseFile("lib/query/inline_tables.go")
+	out.WriteString(leanList("inlineTableSetBody", "`InlineTableMap.Set`: a node of its own, RecursiveTable for WITH RECURSIVE, the query, the header", stmtTokens(findFunc(it, "InlineTableMap", "Set").Body.List)))
+}
+
 func main() {
 	var out strings.Builder
-	out.WriteString("-- GENERATED by /verif/extract/relfacts from lib/query/{header,utils,view,load_view,join}.go — do not edit.\n")
+	out.WriteString("-- GENERATED by /verif/extract/relfacts from lib/query/{header,utils,view,load_view,join,reference_scope,query,inline_tables}.go — do not edit.\n")
 	out.WriteString("import Csvq.Model.RelGen\n\nset_option linter.unusedVariables false\n\nnamespace Csvq.Gen\nopen Csvq Csvq.Rel\n\n")
 	genInStrSlice(&out)
 	genFieldIndex(&out)
@@ -1175,6 +1285,7 @@ func main() {
 	genFlagWrites(&out)
 	genLoadObject(&out)
 	genJoin(&out)
+	genScope(&out)
 	out.WriteString("end Csvq.Gen\n")
 	fmt.Print(out.String())
 }
